@@ -556,6 +556,12 @@ void SZ_compress_args_float_StoreOriData(float* oriData, size_t dataLength, unsi
 			floatToBytes(p, oriData[i]);
 	}
 	*outSize = totalByteLength;
+#ifdef HAVE_TIMECMPR
+	//time-step compression: the decompressor gets these exact values, so they (not the lossy values the kernel left
+	//in the history buffer) are what the next temporal step has to be predicted from
+	if(confparams_cpr->szMode == SZ_TEMPORAL_COMPRESSION && multisteps != NULL && multisteps->hist_data != NULL)
+		memcpy(multisteps->hist_data, oriData, dataLength*sizeof(float));
+#endif
 }
 
 char SZ_compress_args_float_NoCkRngeNoGzip_1D(int cmprType, unsigned char** newByteData, float *oriData,
